@@ -13,12 +13,12 @@ CONSTS = ["AbsInit <- FInit", "Step <- FStep", "XStep <- FXStep", "FinalOk <- FF
 def run(ctx):
     q = ctx.quick()
     # Tier B: FCKernel.tla (publication list, combiner election, combining passes, compact_list).  Refuted: seeded change C23 (no republish when a
-    # waiter takes over); finding 7.9 as coded violates NoFreedLinked when threads exit, with "free only what this call unlinked" it holds
+    # waiter takes over); freeing a 'removed' record that is still linked (the defect repaired by the is_published() fix) violates NoFreedLinked
     vlib.model_check_many(ctx, [dict(module_rel="fc/FCKernel.tla", cfg_rel="fc/FCKernel_q2.cfg", workers=3),
                                 dict(module_rel="fc/FCKernel.tla", cfg_rel="fc/FCKernel_bad_norepublish.cfg", workers=2, expect_violation="Assert"),
                                 dict(module_rel="fc/FCKernel.tla", cfg_rel="fc/FCKernel_bad_exit.cfg", workers=2, expect_violation="NoFreedLinked")] +
                                ([] if q else [dict(module_rel="fc/FCKernel.tla", cfg_rel="fc/FCKernel_q3.cfg", workers=6, timeout=3000),
-                                              dict(module_rel="fc/FCKernel.tla", cfg_rel="fc/FCKernel_intended_exit.cfg", workers=6, timeout=3000)]), par=4)
+                                              dict(module_rel="fc/FCKernel.tla", cfg_rel="fc/FCKernel_q3exit.cfg", workers=6, timeout=3000)]), par=4)
     deep = [("dfs", 6000 if q else 400000, 2 if q else 3)]
     jobs = make_jobs(ctx, "fc", VARIANTS, PROGRAMS) + make_jobs(ctx, "fc", VARIANTS[:4], DEEP, strat=deep)
     vlib.run_jobs(ctx, jobs)
